@@ -83,6 +83,14 @@ pub struct Ctx {
     pub last_count: usize,
 }
 
+/// "prefix-k" -> k; None -> 0; anything else -> -1
+fn meta_id(v: Option<&str>, prefix: &str) -> i64 {
+    match v {
+        None => 0,
+        Some(s) => s.strip_prefix(prefix).and_then(|k| k.parse::<i64>().ok()).unwrap_or(-1),
+    }
+}
+
 fn err_name(e: &MemvidError) -> String {
     let d = format!("{e:?}");
     let name: String = d.chars().take_while(|c| c.is_alphanumeric() || *c == '_').collect();
@@ -226,6 +234,13 @@ impl Ctx {
             "title": fr.title.clone().unwrap_or_default(), "track": fr.track.clone().unwrap_or_default(),
             "kind": fr.kind.clone().unwrap_or_default(), "tags": fr.tags, "labels": fr.labels,
             "has_search_text": fr.search_text.is_some(),
+            "meta": {
+                "title": meta_id(fr.title.as_deref(), "title-"), "track": meta_id(fr.track.as_deref(), "track-"),
+                "kind": meta_id(fr.kind.as_deref(), "kind-"),
+                "tags": if fr.tags.len() == 2 && fr.tags[1] == "common" { meta_id(Some(&fr.tags[0]), "tag-") } else if fr.tags.is_empty() { 0 } else { -1 },
+                "labels": if fr.labels.len() == 1 { meta_id(Some(&fr.labels[0]), "label-") } else if fr.labels.is_empty() { 0 } else { -1 },
+                "extra": meta_id(fr.extra_metadata.get("verif").map(|s| s.as_str()), "extra-"),
+            },
             "pay_err": pay_err,
         })
     }
@@ -326,6 +341,28 @@ fn put_options(op: &Value) -> PutOptions {
     }
     if let Some(s) = op["search_text"].as_str() {
         o.search_text = Some(s.to_string());
+    }
+    // abstract descriptive fields: id k > 0 -> a concrete value carrying k
+    if let Some(m) = op["meta"].as_object() {
+        let id = |k: &str| m.get(k).and_then(|v| v.as_u64()).unwrap_or(0);
+        if id("title") > 0 {
+            o.title = Some(format!("title-{}", id("title")));
+        }
+        if id("track") > 0 {
+            o.track = Some(format!("track-{}", id("track")));
+        }
+        if id("kind") > 0 {
+            o.kind = Some(format!("kind-{}", id("kind")));
+        }
+        if id("tags") > 0 {
+            o.tags = vec![format!("tag-{}", id("tags")), "common".to_string()];
+        }
+        if id("labels") > 0 {
+            o.labels = vec![format!("label-{}", id("labels"))];
+        }
+        if id("extra") > 0 {
+            o.extra_metadata.insert("verif".to_string(), format!("extra-{}", id("extra")));
+        }
     }
     o.extraction_budget_ms = op["budget_ms"].as_u64().unwrap_or(0);
     o.auto_tag = op["auto_tag"].as_bool().unwrap_or(false);
